@@ -481,7 +481,7 @@ func sampleDoc(r *lib.Rng) DSpec {
 // GenSharedCall makes a call that goes through something goroutines share (C08).
 func GenSharedCall(r *lib.Rng) Call {
 	op := lib.Pick(r, []string{"jp.Get", "jp.Get", "jp.First", "jp.Has", "jp.Set", "jp.Del", "script.Match", "script.Eval",
-		"alt.Decompose", "alt.Generify", "rec.Recompose", "rec.Board", "rec.Board", "oj.Unmarshal", "pretty.JSON", "pretty.SEN", "oj.JSON.opt",
+		"alt.Decompose", "alt.Generify", "rec.Recompose", "rec.Board", "rec.Board", "rec.Nest", "rec.Nest", "oj.Unmarshal", "pretty.JSON", "pretty.SEN", "oj.JSON.opt",
 		"sen.String.opt", "oj.Validate", "oj.Tokenize"})
 	c := Call{Op: op, Path: r.Intn(64), Val: int64(r.Intn(100))}
 	if op == "jp.First" {
